@@ -184,10 +184,20 @@ func init() {
 		return nil, false
 	})
 	reg("Gauge", func(e *Exec, fv *FuncV, args []Value, cc *ssa.CallCommon) (Value, bool) {
-		name := e.strArg(args[0])
+		// the metric is identified by its name; the engine only knows the Go variable holding the vector
+		// (hagallSessionCount for "session_count"): compare modulo case and underscores
+		norm := func(s string) string { return strings.ToLower(strings.ReplaceAll(s, "_", "")) }
+		name := norm(e.strArg(args[0]))
 		sum := e.C.BVConst(64, 0)
 		for _, k := range e.gaugeKeys {
-			if strings.Contains(k, "."+name+"{") || strings.HasSuffix(k, "."+name) {
+			v := k
+			if i := strings.Index(v, "{"); i >= 0 {
+				v = v[:i]
+			}
+			if i := strings.LastIndex(v, "."); i >= 0 {
+				v = v[i+1:]
+			}
+			if strings.HasSuffix(norm(v), name) {
 				sum = e.C.BVAdd(sum, e.gauges[k])
 			}
 		}
